@@ -57,6 +57,13 @@ case "$V" in
   opt)  build_intree gcc "gcc -c" "-O2 -g -Wno-error" ;;
   tsan) build_intree clang "clang -c -Wno-unused-command-line-argument" \
         "-O1 -g -fno-omit-frame-pointer -Wno-error -fsanitize=thread" ;;
+  mparam-*)
+    # same configuration and kernels as /repo's build, but compiled against another shipped tuning table
+    MP="$(echo "${V#mparam-}" | tr '_' '/')"
+    [ "$MP" = "base" ] && MP="."
+    test -f "$SCR/src/mpn/x86_64/$MP/gmp-mparam.h" || { echo "no tuning table mpn/x86_64/$MP/gmp-mparam.h" >&2; exit 2; }
+    rm -f "$SCR/src/gmp-mparam.h"; cp "$SCR/src/mpn/x86_64/$MP/gmp-mparam.h" "$SCR/src/gmp-mparam.h"
+    build_intree gcc "gcc -c" "-O2 -g -Wno-error" ;;
   cfg-*)
     OPTS="$(cat "$HERE/cfg/${V#cfg-}.opts" 2>/dev/null)" || { echo "no opts for $V" >&2; exit 2; }
     CFG_CFLAGS="$(cat "$HERE/cfg/${V#cfg-}.cflags" 2>/dev/null || echo '-O2 -g')"
